@@ -543,6 +543,7 @@ func init() {
 	props["C17"] = func(o *Out, rng *Rng, tier string) {
 		c17RegisterField(o)
 		c17AfterRefusedLoad(o)
+		c17Repeated(o)
 		rounds := 40
 		if tier == "thorough" {
 			rounds = 1500
@@ -714,5 +715,41 @@ func c17AfterRefusedLoad(o *Out) {
 		o.Count("introspection after a refused load")
 		o.Emit(Case{Term: N("c17r", S("refused load: "+h.name)), Obs: N("obs", B(got == want)),
 			Meta: map[string]interface{}{"history": h.name, "refused": h.refused, "error": refusedErr, "answer": got, "expected": want}, Nontrivial: true})
+	}
+}
+
+// ---- the same listing asked twice --------------------------------------------------------------------
+//
+// Introspection is a read: `enumValues` / `fields` with and without `includeDeprecated`, in one request and in
+// successive requests on one root, each answer the one a fresh root gives.  (A deprecated member that is not the
+// last one, listings without the deprecated members first: a filter that works on the schema's own list shows
+// here.)  Fixed table, every run.
+
+func c17Repeated(o *Out) {
+	const sdl = "enum Color { RED GREEN @deprecated BLUE BLACK }\ntype Query { a: Int b: Int @deprecated(reason: \"old\") c: Color d: Int }\ninterface Named { x: Int @deprecated y: Int z: Int }"
+	qs := []string{
+		`{ __type(name: "Color") { enumValues { name } } }`,
+		`{ __type(name: "Color") { enumValues(includeDeprecated: true) { name isDeprecated } } }`,
+		`{ a: __type(name: "Color") { enumValues { name } } b: __type(name: "Color") { enumValues(includeDeprecated: true) { name } } c: __type(name: "Color") { enumValues { name } } }`,
+		`{ __type(name: "Query") { fields { name } } }`,
+		`{ __type(name: "Query") { fields(includeDeprecated: true) { name } } }`,
+		`{ a: __type(name: "Named") { fields { name } } b: __type(name: "Named") { fields(includeDeprecated: true) { name } } }`,
+		`{ __schema { types { name enumValues(includeDeprecated: true) { name } fields(includeDeprecated: true) { name } } } }`,
+	}
+	mk := func() *ggql.Root {
+		root := newLoadRoot()
+		if err := safeParse(root, sdl); err != nil {
+			panic("c17 repeated: " + err.Error())
+		}
+		return root
+	}
+	root := mk()
+	for round := 0; round < 2; round++ {
+		for _, q := range qs {
+			got, want := canon(safeResolve(root, q, "", nil)), canon(safeResolve(mk(), q, "", nil))
+			o.Count("repeated introspection listings")
+			o.Emit(Case{Term: N("c17r", S(fmt.Sprintf("round %d: %s", round, q))), Obs: N("obs", B(got == want)),
+				Meta: map[string]interface{}{"query": q, "round": round, "answer": got, "fresh_root": want}, Nontrivial: true})
+		}
 	}
 }
